@@ -381,6 +381,28 @@ func runC12(seed int64, tier string, sc *Script) map[string]any {
 		sc.Op(v, "tr skipunpack")
 		evals++
 		fs4.Close()
+		// IgnoreNoName: what has no title (the manifest, its config) is dropped by the
+		// destination, everything with a title still comes back identical
+		{
+			wd6 := filepath.Join(base, "wd6")
+			os.MkdirAll(wd6, 0o755)
+			fs6, _ := file.New(wd6)
+			fs6.IgnoreNoName = true
+			fs6.PreservePermissions = preserve
+			v := "same"
+			if err := oras.CopyGraph(ctx, fs1, fs6, root, oras.DefaultCopyGraphOptions); err != nil {
+				v = "copy-failed:" + strings.ReplaceAll(err.Error(), " ", "_")
+			} else if got, err := readTree(filepath.Join(wd6, "data")); err != nil {
+				v = "unreadable:" + strings.ReplaceAll(err.Error(), " ", "_")
+			} else if v = diffTrees(expectTree(tree, umask, preserve), got); v == "same" {
+				if b, err := os.ReadFile(filepath.Join(wd6, "one.bin")); err != nil || !bytes.Equal(b, single) {
+					v = "single-file-differs"
+				}
+			}
+			sc.Op(v, "tr roundtrip mid=ignorenoname reproducible=%v preserve=%v forcecas=false entries=%d", reproducible, preserve, len(tree))
+			evals++
+			fs6.Close()
+		}
 		// reproducible tars: the same tree with other timestamps gives the same descriptor
 		if reproducible {
 			wd5 := filepath.Join(base, "wd5")
